@@ -458,3 +458,46 @@ def check_reverse(chk, f):
                         handled = True
             out.append((c, b, s0, handled))
     return out
+
+
+# ---- IT5 configuration agreement on range ends -------------------------------------------------------------------
+def check_static_agreement(f):
+    """`if constexpr` alternatives of one algorithm must consult the same range-end parameters: an end that only one
+    alternative reads means the other alternative's result cannot depend on the length of that range (equal / is_permutation
+    with non-random-access iterators). Returns list of (end parameter, condition text) that disagree."""
+    pairs = range_pairs(f)
+    if not pairs or f.get("body") is None:
+        return None
+    ends = set(pairs.values())
+    has_static = any(st.get("k") == "if" and st.get("constexpr") for st in astx.walk_stmts(f["body"]))
+    if not has_static:
+        return None
+    groups = {}
+    for p in SP.paths(f["body"]):
+        key = []
+        reads = set()
+        for ev in p:
+            if ev[0] == "cond" and _is_static_cond(f, ev[1]):
+                key.append((astx.show(ev[1], 60), ev[2]))
+            for e in SP.event_exprs(ev):
+                for x in astx.walk_expr(e, into_lambdas=True):
+                    if x.get("k") == "ref" and x.get("d") == "param" and x["n"] in ends:
+                        reads.add(x["n"])
+        groups.setdefault(tuple(key), set()).update(reads)
+    if len(groups) < 2:
+        return []
+    union = set()
+    for r in groups.values():
+        union |= r
+    out = []
+    for key, r in groups.items():
+        for e in sorted(union - r):
+            out.append((e, "; ".join("%s is %s" % (c, "true" if t else "false") for c, t in key)))
+    return out
+
+
+def _is_static_cond(f, cond):
+    for st in astx.walk_stmts(f["body"]):
+        if st.get("k") == "if" and st.get("constexpr") and st.get("c") is cond:
+            return True
+    return False
